@@ -54,6 +54,30 @@ pub struct Ctx {
 }
 
 impl Ctx {
+    /// a throw-away context (used when a history is executed only for its results)
+    pub fn scratch() -> Ctx {
+        Ctx {
+            prop: "scratch".into(),
+            seed: 0,
+            shard: 0,
+            nshards: 1,
+            scale: 1,
+            tier: "quick".into(),
+            profile: "mon".into(),
+            only: None,
+            outdir: ".".into(),
+            counters: BTreeMap::new(),
+            sets: BTreeMap::new(),
+            distinct: HashSet::new(),
+            samples: Vec::new(),
+            violations: 0,
+            viol_by_sub: BTreeMap::new(),
+            harness_errors: 0,
+            cur_regime: String::new(),
+            cur_case: 0,
+            max_samples: 0,
+        }
+    }
     pub fn count(&mut self, k: &str, by: u64) {
         *self.counters.entry(k.to_string()).or_insert(0) += by;
     }
